@@ -1,6 +1,7 @@
 import PsyVerif.Lemmas.DeclsGen
 import PsyVerif.Lemmas.DeclsSort
 import PsyVerif.Lemmas.DeclsStable
+import PsyVerif.Lemmas.DeclsModule3
 /-! # C03 — Re-writing is stable after one round trip
 
 Model: `PsyVerif/Model/Decls.lean`: `writeUnitPinned` (pinned `FortranWriter`: access-statement name
@@ -28,12 +29,21 @@ What is proved for all inputs
 * `C03_read_write_canonical`: a text without forward references (`cleanText`, decidable) is read into
   its canonical table (contained routines, `use` symbols, derived types, other declarations in text
   order) — for modules and routines.
-* `C03_stable_routine` (+ `C03_stable_routine_pinned`): for every ROUTINE whose written text has no
-  forward reference, `write₁ (read₁ (write₁ r)) = write₁ r` (via `C03_read_write_canonical` and
-  `genUses_canonical` / `genDecls_canonical` = write_canonical_id).
-Not proved: the same fixpoint theorem for MODULE scope (access statements); there the pieces above
-(`C03_access_canonical`, `C03_access_idem`, `C03_read_write_canonical`) are proved and the complete
-statement is checked by the correspondence on exported tables and on the real files. -/
+* `C03_stable_routine` (+ `_pinned`): for every ROUTINE whose written text has no forward reference,
+  `write₁ (read₁ (write₁ r)) = write₁ r`.
+* `C03_stable_module`: the same for every MODULE that satisfies `ModuleCanon` (routine symbols are
+  interface blocks or contained routines, unresolved symbols have default visibility, containers of
+  imports present) — repaired writer (sorted access lists); `C03_stable_module_pinned`: pinned writer
+  when every access statement names at most one symbol.  Built from `C03_read_write_canonical`,
+  `genUses_canonical` / `genDecls_canonical` (write_canonical_id), `visOf_accessible` (the reader recovers
+  the visibility of every routine / imported symbol) and `access_perm` + `C03_access_canonical`.
+* `C03_stable_unit`, `C03_stable_partial`: a file = list of scoping units (modules, routines, each
+  with the host names it sees): if every unit meets the decidable `StableSide`, the second write of the
+  file equals the first.
+The one hypothesis checked on the written text is `cleanText` (no forward reference, every name of an
+access statement known, arguments declared); that the re-read table has distinct names is derived
+(`canon_nodup`).  The host names (`outer`) of a contained routine are a parameter: that re-reading the
+module leaves them unchanged is not part of the file-level statement. -/
 namespace C03
 open Decls
 
@@ -331,7 +341,7 @@ theorem C03_stable_routine (u : Decls.Unit) (w : Wf u) (hm : u.isModule = false)
   have hgd := genDecls_canonical w hd
     { isModule := u.isModule, defPrivate := defPrivateOf items, outerWild := u.outerWild, outer := u.outer,
       syms := canonSyms items, args := u.args, body := stmtsOf items, routines := routinesOf items }
-    hm _ hH hcan
+    (by intro hc; rw [hm] at hc; cases hc) _ hH hcan
   have hcsnd : (names cs).Nodup := names_filter_nodup w.nodup isContainer
   have hE : ∀ s ∈ (ds.map nv).filter isDtype ++ (ds.map nv).filter (fun s => !isDtype s),
       s.cls.declarable = true := by
@@ -384,6 +394,185 @@ theorem C03_stable_routine_pinned (u : Decls.Unit) (w : Wf u) (hm : u.isModule =
       · cases hr; exact hm
     rw [writeUnitPinned_routine u' hm']; exact this
 
+/-- what a module's written text looks like -/
+theorem writeUnit_module {u : Decls.Unit} (hm : u.isModule = true) {items : List Item}
+    (h : writeUnit u = .ok items) : ∃ ds, genDecls u = .ok ds ∧ ModText u ds items := by
+  obtain ⟨ds, hd, rfl⟩ := writeWith_ok h
+  refine ⟨ds, hd, ⟨?_⟩⟩
+  simp only [hm, if_true]
+  rw [List.map_map]
+  rfl
+
+/-- **C03 for modules** (repaired writer: access-statement names sorted).  If the module satisfies
+`ModuleCanon` (routine symbols are interfaces or contained routines, unresolved symbols have default
+visibility, containers of imports are present) and its written text contains no forward reference
+(`cleanText`), then writing, reading back and writing again gives the same text. -/
+theorem C03_stable_module (u : Decls.Unit) (w : Wf u) (hm : u.isModule = true) (mc : ModuleCanon u)
+    (items : List Item) (h : writeUnit u = .ok items) (hclean : cleanText u.outer u.args items = true) :
+    roundTrip writeUnit u = .ok items := by
+  obtain ⟨ds, hd, ht⟩ := writeUnit_module hm h
+  have hnd : (names (canonSyms items)).Nodup := canon_nodup w mc ht hclean
+  unfold roundTrip
+  rw [h]
+  simp only
+  rw [C03_read_write_canonical u items hclean]
+  simp only
+  have hmapid : ds.map (nvm true) = ds := by
+    conv => rhs; rw [← List.map_id ds]
+    apply List.map_congr_left; intro s _; exact nvm_true s
+  have hperm := genDecls_perm w hd
+  -- the table of `use` and routine symbols contains nothing that is declared
+  have hH : ∀ s ∈ routineTab items u.routines ++ useTab u items,
+      s.cls.declarable = false ∧ s.cls ≠ .unresolved ∧ s.cls ≠ .routineBad := by
+    intro s hs
+    rcases List.mem_append.mp hs with h1 | h1
+    · obtain ⟨n, _, rfl⟩ := List.mem_map.mp h1; simp [Cls.declarable]
+    · obtain ⟨c, _, hsc⟩ := List.mem_flatMap.mp h1
+      simp only [blk, List.mem_cons] at hsc
+      rcases hsc with rfl | hsc
+      · simp [headSym, Cls.declarable]
+      · obtain ⟨n, _, rfl⟩ := List.mem_map.mp hsc
+        simp [Cls.declarable]
+  have hcan : canonSyms items = canonTab (routineTab items u.routines ++ useTab u items) (ds.map (nvm true)) := by
+    rw [ht.canon, hmapid]; rfl
+  have hargs : ofCls u.syms .arg = [] := by
+    obtain ⟨_, _, _, _, _, ha⟩ := genDecls_ok hd
+    exact ha hm
+  have hgd := genDecls_canonical (m := true) w hd
+    { isModule := u.isModule, defPrivate := defPrivateOf items, outerWild := u.outerWild, outer := u.outer,
+      syms := canonSyms items, args := u.args, body := stmtsOf items, routines := routinesOf items }
+    (fun _ => hargs) _ hH hcan
+  -- `use` statements
+  have hcsnd : (names (u.syms.filter isContainer)).Nodup := names_filter_nodup w.nodup isContainer
+  have hE : ∀ s ∈ ds.filter isDtype ++ ds.filter (fun s => !isDtype s), s.cls.declarable = true := by
+    intro s hs
+    have hsd : s ∈ ds := by
+      rcases List.mem_append.mp hs with h1 | h1 <;> exact (List.mem_filter.mp h1).1
+    simpa using (List.mem_filter.mp (hperm.subset hsd)).2
+  have huses : genUses (canonSyms items) = genUses u.syms := by
+    rw [ht.canon, List.append_assoc, List.append_assoc, genUses_prefix (by
+      intro s hs
+      obtain ⟨n, _, rfl⟩ := List.mem_map.mp hs
+      exact ⟨by simp [isContainer], fun c => by simp [isImp]⟩)]
+    unfold useTab
+    rw [genUses_canonical (visOf items) _ _ _ hcsnd hE, genUses_eq]
+    apply List.map_congr_left
+    intro c _
+    simp only [mkUse, isort_idem]
+  -- access statements
+  have hacc : genAccess
+      { isModule := u.isModule, defPrivate := defPrivateOf items, outerWild := u.outerWild, outer := u.outer,
+        syms := canonSyms items, args := u.args, body := stmtsOf items, routines := routinesOf items }
+      = genAccess u := by
+    unfold genAccess accessLists
+    simp only [ht.defPrivate]
+    cases hdp : u.defPrivate with
+    | true =>
+      simp only [if_true]
+      rw [isort_eq_of_perm (access_perm w mc hd ht hnd (·.pub) (fun a b hab => hab)
+        (fun s hs hc => by rw [mc.unresolvedDefault s hs hc, hdp]; rfl))]
+    | false =>
+      simp only [Bool.false_eq_true, if_false]
+      rw [isort_eq_of_perm (access_perm w mc hd ht hnd (fun s => !s.pub) (fun a b hab => by simp [hab])
+        (fun s hs hc => by simp [mc.unresolvedDefault s hs hc, hdp]))]
+  unfold writeUnit writeWith
+  rw [hgd]
+  simp only
+  rw [huses, hacc, ht.stmts, ht.routines, ht.defPrivate]
+  simp only [hm, if_true]
+  have hdd : List.map (fun s => Item.decl (normVis true s)) (List.map (nvm true) ds)
+      = List.map Item.decl (List.map (nvm true) ds) := by
+    apply List.map_congr_left
+    intro s _
+    rfl
+  rw [hdd]
+  exact congrArg Except.ok ht.eq.symm
+
+/-- **C03 for modules, pinned writer**: when every access statement names at most one symbol the
+pinned `gen_access_stmts` (symbol-table order) writes what the repaired one writes, in both passes. -/
+theorem C03_stable_module_pinned (u : Decls.Unit) (w : Wf u) (hm : u.isModule = true) (mc : ModuleCanon u)
+    (items : List Item) (h : writeUnitPinned u = .ok items) (hclean : cleanText u.outer u.args items = true)
+    (h1 : (accessLists u).1.length ≤ 1) (h2 : (accessLists u).2.length ≤ 1) :
+    roundTrip writeUnitPinned u = .ok items := by
+  rw [C03_access_trivial_pinned u h1 h2] at h
+  obtain ⟨ds, hd, ht⟩ := writeUnit_module hm h
+  have hnd : (names (canonSyms items)).Nodup := canon_nodup w mc ht hclean
+  have hst := C03_stable_module u w hm mc items h hclean
+  unfold roundTrip at hst ⊢
+  rw [C03_access_trivial_pinned u h1 h2, h] at *
+  simp only at hst ⊢
+  rw [C03_read_write_canonical u items hclean] at hst ⊢
+  simp only at hst ⊢
+  rw [C03_access_trivial_pinned]
+  · exact hst
+  · -- the access lists of the re-read table are permutations of the original ones
+    unfold accessLists
+    simp only [ht.defPrivate]
+    unfold accessLists at h1
+    cases hdp : u.defPrivate with
+    | true =>
+      simp only [hdp, if_true] at h1 ⊢
+      rw [(access_perm w mc hd ht hnd (·.pub) (fun a b hab => hab)
+        (fun s hs hc => by rw [mc.unresolvedDefault s hs hc, hdp]; rfl)).length_eq]
+      exact h1
+    | false => simp
+  · unfold accessLists
+    simp only [ht.defPrivate]
+    unfold accessLists at h2
+    cases hdp : u.defPrivate with
+    | true => simp
+    | false =>
+      simp only [hdp, Bool.false_eq_true, if_false] at h2 ⊢
+      rw [(access_perm w mc hd ht hnd (fun s => !s.pub) (fun a b hab => by simp [hab])
+        (fun s hs hc => by simp [mc.unresolvedDefault s hs hc, hdp])).length_eq]
+      exact h2
+
+/-! ### a file: modules and routines -/
+
+/-- apply `g` to every program unit; the first refusal is the result -/
+def mapUnits (g : Decls.Unit → Except Err (List Item)) : List Decls.Unit → Except Err (List (List Item))
+  | [] => .ok []
+  | u :: r =>
+    match g u with
+    | .error e => .error e
+    | .ok a =>
+      match mapUnits g r with
+      | .error e => .error e
+      | .ok b => .ok (a :: b)
+
+theorem mapUnits_congr {g k : Decls.Unit → Except Err (List Item)} :
+    ∀ (f : List Decls.Unit), (∀ u ∈ f, g u = k u) → mapUnits g f = mapUnits k f := by
+  intro f
+  induction f with
+  | nil => intro _; rfl
+  | cons u r ih =>
+    intro h
+    simp only [mapUnits, h u (by simp), ih (fun v hv => h v (List.mem_cons_of_mem _ hv))]
+
+/-- the decidable side condition of the stability theorem for one program unit: its written text has no
+forward reference; a module in addition satisfies `ModuleCanon` -/
+def StableSide (u : Decls.Unit) : Prop :=
+  ∀ items, writeUnit u = .ok items →
+    cleanText u.outer u.args items = true ∧ (u.isModule = true → ModuleCanon u)
+
+/-- one program unit: the second write reproduces the first (a refusal stays a refusal) -/
+theorem C03_stable_unit (u : Decls.Unit) (w : Wf u) (hs : StableSide u) : roundTrip writeUnit u = writeUnit u := by
+  cases h : writeUnit u with
+  | error e => unfold roundTrip; rw [h]
+  | ok items =>
+    obtain ⟨hc, hmod⟩ := hs items h
+    cases hm : u.isModule with
+    | false => exact C03_stable_routine u w hm items h hc
+    | true =>
+      exact C03_stable_module u w hm (hmod hm) items h hc
+
+/-- **C03 for a file** (module(s) and routines, each a scoping unit with its host names): if every
+unit is well-formed and meets `StableSide`, writing the file, reading it back and writing it again
+gives exactly the text of the first write. -/
+theorem C03_stable_partial (f : List Decls.Unit) (hall : ∀ u ∈ f, Wf u ∧ StableSide u) :
+    mapUnits (roundTrip writeUnit) f = mapUnits writeUnit f :=
+  mapUnits_congr f (fun u hu => C03_stable_unit u (hall u hu).1 (hall u hu).2)
+
 /-! ## non-vacuity and sanity evaluations -/
 
 /-- a routine with imports, constants given out of order, arguments, a derived type and locals -/
@@ -412,5 +601,25 @@ example : orderParams [(3, [2]), (2, [1]), (1, [])] = some [1, 2, 3] ∧
 example : Wf cexAccess ∧ Wf cexForward ∧ (writeUnitPinned cexAccess).toBool ∧ (writeUnit cexForward).toBool := by
   decide
 example : (accessLists cexAccess).1 = [2, 1] := by decide
+
+/-- a private module: imports (one public), an interface, two contained routines (one public), a
+constant chain, a derived type and variables; one unresolved name from a wildcard import -/
+def mOk : Decls.Unit :=
+  { isModule := true, defPrivate := true, routines := [30, 31], body := [],
+    syms := [{ name := 30, cls := .skipped, routine := true }, { name := 31, cls := .skipped, routine := true, pub := false },
+             { name := 10, cls := .container true }, { name := 12, cls := .imported 10 },
+             { name := 11, cls := .imported 10, pub := false },
+             { name := 40, cls := .unresolved, pub := false },
+             { name := 5, cls := .other, pub := false, xdeps := [2, 8] }, { name := 3, cls := .param, ideps := [2, 11] },
+             { name := 2, cls := .param, pub := false, ideps := [1] }, { name := 1, cls := .param },
+             { name := 8, cls := .dtype }, { name := 4, cls := .iface, routine := true }] }
+
+example : Wf mOk ∧ ModuleCanon mOk := by decide
+example : (match writeUnit mOk with
+    | .ok items => cleanText mOk.outer mOk.args items | .error _ => false) = true := by decide
+example : (accessLists mOk).1 = [30, 12, 4] ∧ stable writeUnit mOk = true := by decide
+/-- here the table order of the three public names (routine, import, interface) is already the order
+in which the reader re-creates them, so the pinned writer is stable too; `cexAccess` is where it is not -/
+example : stable writeUnitPinned mOk = true := by decide
 
 end C03
